@@ -47,8 +47,13 @@ pub struct BackendState {
     pub next_rid: ResourceId,
     pub file_type_id: usize,
     pub dns_type_id: usize,
+    pub dir_type_id: usize,
     /// open resolver resources: rid -> position in the (fixed) address list
     pub resolvers: BTreeMap<ResourceId, usize>,
+    /// open directory iterators: rid -> remaining entry names
+    pub dirs: BTreeMap<ResourceId, Vec<String>>,
+    /// type ids of composite effect results, pushed by the environment (builtin name -> info)
+    pub result_infos: BTreeMap<String, (usize, BTreeMap<String, usize>)>,
     pub type_ids_pushed: u64,
     /// async completions not yet released by the scheduler
     pub pending: Vec<(ProcessId, EffectResult)>,
@@ -74,7 +79,10 @@ impl BackendState {
             next_rid: 1,
             file_type_id: 0,
             dns_type_id: 0,
+            dir_type_id: 0,
             resolvers: BTreeMap::new(),
+            dirs: BTreeMap::new(),
+            result_infos: BTreeMap::new(),
             type_ids_pushed: 0,
             pending: Vec::new(),
             ready: Vec::new(),
@@ -219,6 +227,58 @@ impl EffectBackend for SimBackend {
                     (op, Ok(Some(Ok((Value::ok(), vec![])))))
                 }
             }
+            // directory listing and stat over the in-memory file table: composite results stamped with the
+            // type ids the environment pushed (`[name, kind]`, `[kind, size, modified, mode]`)
+            NativeEffect::ReadDirOpen { path } => {
+                let path = String::from_utf8_lossy(&path).into_owned();
+                let op = BackendOp::Open { path: format!("dir:{path}") };
+                let prefix = if path.ends_with('/') { path.clone() } else { format!("{path}/") };
+                let mut names: Vec<String> = st.files.keys().filter(|k| k.starts_with(&prefix)).map(|k| k[prefix.len()..].to_string()).collect();
+                names.reverse(); // popped from the back
+                let rid = st.next_rid;
+                st.next_rid += 1;
+                st.dirs.insert(rid, names);
+                let ty = st.dir_type_id;
+                (op, Ok(Some(Ok((Value::Resource(rid, ty), vec![])))))
+            }
+            NativeEffect::ReadDirNext { resource_id } => {
+                let op = BackendOp::Read { rid: resource_id };
+                let info = st.result_infos.get("directory_next").cloned();
+                match (st.dirs.get_mut(&resource_id), info) {
+                    (None, _) => (op, Err(Error::InvalidArgument(format!("Resource {} not found", resource_id)))),
+                    (_, None) => (op, Err(Error::InvalidArgument("no result type ids registered for builtin `directory_next`".to_string()))),
+                    (Some(names), Some((tuple_id, variants))) => match names.pop() {
+                        None => (op, Ok(Some(Ok((Value::nil(), vec![]))))),
+                        Some(name) => match variants.get("File") {
+                            None => (op, Err(Error::InvalidArgument("no tuple id registered for kind tag `File`".to_string()))),
+                            Some(kind) => (op, Ok(Some(Ok((Value::tuple(tuple_id, vec![Value::Binary(Binary::Heap(0)), Value::tuple(*kind, vec![])]), vec![name.into_bytes()]))))),
+                        },
+                    },
+                }
+            }
+            NativeEffect::ReadDirClose { resource_id } => {
+                let op = BackendOp::Close { rid: resource_id };
+                if st.dirs.remove(&resource_id).is_none() {
+                    (op, Err(Error::InvalidArgument(format!("Resource {} not found", resource_id))))
+                } else {
+                    (op, Ok(Some(Ok((Value::ok(), vec![])))))
+                }
+            }
+            NativeEffect::Stat { path } => {
+                let path = String::from_utf8_lossy(&path).into_owned();
+                let info = st.result_infos.get("filesystem_stat").cloned();
+                match (st.files.get(&path).map(|f| f.len()), info) {
+                    (None, _) => (BackendOp::Other, Ok(Some(Ok((Value::nil(), vec![]))))),
+                    (_, None) => (BackendOp::Other, Err(Error::InvalidArgument("no result type ids registered for builtin `filesystem_stat`".to_string()))),
+                    (Some(len), Some((tuple_id, variants))) => match variants.get("File") {
+                        None => (BackendOp::Other, Err(Error::InvalidArgument("no tuple id registered for kind tag `File`".to_string()))),
+                        Some(kind) => (
+                            BackendOp::Other,
+                            Ok(Some(Ok((Value::tuple(tuple_id, vec![Value::tuple(*kind, vec![]), Value::Integer(len.into()), Value::Integer(0.into()), Value::Integer(420.into())]), vec![])))),
+                        ),
+                    },
+                }
+            }
             // a second kind of resource: an iterator over resolved addresses (all immediate, as in the
             // native backend); recorded as Open / Read / Close so that the ownership model applies as is
             NativeEffect::DnsResolve { hostname } => {
@@ -292,12 +352,13 @@ impl EffectBackend for SimBackend {
     fn close_resource(&mut self, resource_id: ResourceId) {
         let mut st = self.0.lock().unwrap();
         let was_file = st.open.remove(&resource_id).is_some();
-        let was_open = st.resolvers.remove(&resource_id).is_some() || was_file;
+        let was_dir = st.dirs.remove(&resource_id).is_some();
+        let was_open = st.resolvers.remove(&resource_id).is_some() || was_file || was_dir;
         let step = st.step;
         st.history.push(BackendRec::AutoClose { step, rid: resource_id, was_open });
     }
 
-    fn set_type_ids(&mut self, resources: &[String], _results: &[(String, ResultTupleInfo)]) {
+    fn set_type_ids(&mut self, resources: &[String], results: &[(String, ResultTupleInfo)]) {
         let mut st = self.0.lock().unwrap();
         st.type_ids_pushed += 1;
         if let Some(i) = resources.iter().position(|n| n == "File") {
@@ -305,6 +366,12 @@ impl EffectBackend for SimBackend {
         }
         if let Some(i) = resources.iter().position(|n| n == "DnsResolver") {
             st.dns_type_id = i;
+        }
+        if let Some(i) = resources.iter().position(|n| n == "Dir") {
+            st.dir_type_id = i;
+        }
+        for (name, info) in results {
+            st.result_infos.insert(name.clone(), (info.tuple_id, info.variants.iter().map(|(k, v)| (k.clone(), *v)).collect()));
         }
     }
 }
